@@ -176,16 +176,29 @@ class Prov:
                 return (r[0], r[1], set())
             self.var_stack.add(l)
             tags = set()
+            lo = hi = None
+            cyclic = False
             try:
                 for (bi, si, kind, payload) in self.body.defs().get(l, []):
                     if kind == "assign":
-                        tags |= self.tags_of(self.body.term_of_rvalue(payload["rv"]), depth + 1)
+                        dt = self.body.term_of_rvalue(payload["rv"])
                     else:
-                        tags |= self.tags_of(self.body.term_of_call(payload, bi), depth + 1)
+                        dt = self.body.term_of_call(payload, bi)
+                    if any(x[0] == "var" and x[1] == l for x in walk(dt)):
+                        cyclic = True
+                    d = self.of(dt, self.body.local_ty(l), depth + 1)
+                    tags |= set(d[2])
+                    lo = d[0] if lo is None else min(lo, d[0])
+                    hi = d[1] if hi is None else max(hi, d[1])
             finally:
                 self.var_stack.discard(l)
-            tags = (tags - {"const"}) | {"counter"}
-            return (r[0], r[1], tags)
+            if cyclic or lo is None:
+                # loop-carried: no flow-insensitive bound
+                tags = (tags - {"const"}) | {"counter"}
+                return (r[0], r[1], tags)
+            # a merge of independent definitions (if/else, match): join of their intervals
+            tags = (tags - {"const"}) or {"const"}
+            return (max(lo, r[0]), min(hi, r[1]), tags)
         if tag == "un":
             a = self.of(t[2], ty, depth + 1)
             r = ty_range(ty) or (0, (1 << 64) - 1)
@@ -363,6 +376,10 @@ def analyse_body(facts, rep, b, is_parser, rules):
                 if sb[1] < BITS.get(aty, 64):
                     rep.count("overflow_discharged_by_interval")
                     continue
+            if "counter" in tags and op in ("Add", "Mul", "Shl"):
+                # loop-carried operand: a flow-insensitive interval cannot bound it either way
+                rep.count("overflow_not_decided_loop_carried")
+                continue
             if "input" in tags or ("param" in tags and b.pub and is_parser):
                 if cd is None:
                     cd = control_deps(b)
